@@ -61,12 +61,16 @@ def build_lean(prop):
     with Lock("lake"):
         ok, msg = extract_consts.regenerate(REPO, os.path.join(LEAN, "SyModel", "Generated", "Consts.lean"))
         if not ok:
-            return False, "extract_consts: " + msg, None
-        r = sh(["lake", "build"] + modules_of(prop) + ["sydriver"], cwd=LEAN)
-        if r.returncode != 0:
-            m = re.findall(r"error: ([^\n]*)", r.stdout)
-            return False, r.stdout[-6000:], (m[0] if m else None)
-    return True, "", None
+            return False, "extract_consts: " + msg, None, os.path.exists(os.path.join(LEAN, ".lake", "build", "bin", "sydriver"))
+        # the driver first: the correspondence / oracle streams (the search for a failing input) only need the
+        # executable model, so they still run when a proof obligation of the property module is broken
+        rd = sh(["lake", "build", "sydriver"], cwd=LEAN)
+        r = sh(["lake", "build"] + modules_of(prop), cwd=LEAN)
+        if r.returncode != 0 or rd.returncode != 0:
+            out = (rd.stdout if rd.returncode != 0 else "") + r.stdout
+            m = re.findall(r"error: ([^\n]*)", out)
+            return False, out[-6000:], (m[0] if m else None), rd.returncode == 0
+    return True, "", None, True
 
 def theorem_names(prop):
     """fully qualified names of every theorem in the property's Props module(s)"""
@@ -148,7 +152,7 @@ def main():
         log("cargo build failed:\n" + msg)
         broken.append(("K", "build", "cargo build of /repo or the harness failed: " + msg[-800:]))
     # 2/3. lean
-    okl, msgl, first = build_lean(prop)
+    okl, msgl, first, driver_ok = build_lean(prop)
     names, axres, bad, missing, hits, auditerr = ([], {}, {}, [], [], "")
     if not okl:
         log("lake build failed:\n" + msgl)
@@ -168,7 +172,7 @@ def main():
     # 4/5. streams (K and O)
     import streams
     reports = []
-    if ok and okl:
+    if ok and driver_ok:
         work = os.path.join(BUILD, "work", f"{prop}-{os.getpid()}")
         os.makedirs(work, exist_ok=True)
         try:
@@ -197,8 +201,10 @@ def main():
         if f["signature"] in known_sigs: listed.setdefault(f["signature"], f)
     rc = 0
     lines = []
-    for sig in sorted(listed):
-        lines.append(f"KNOWN-FINDING: property={prop} {sig}: {known_sigs[sig].get('what', '')}")
+    # one line per listed finding of this property (whether or not this run happened to reproduce it)
+    for sig in sorted(known_sigs):
+        seen = "observed this run" if sig in listed else "not reproduced by this run's cases"
+        lines.append(f"KNOWN-FINDING: property={prop} {sig}: {known_sigs[sig].get('what', '')} [{seen}]")
     violations = 0
     if unlisted:
         violations = len(unlisted)
